@@ -67,7 +67,13 @@ def slim(n, cur_line=0):
         o['off'] = off
     inner = n.get('inner')
     if inner:
-        o['inner'] = [s for s in (slim(c, ln) for c in inner) if s is not None]
+        if n['kind'] in ('ForStmt', 'IfStmt', 'WhileStmt', 'DoStmt'):
+            # positional children: keep placeholders for absent parts
+            o['inner'] = [slim(c, ln) or {'kind': 'NullStmt', 'line': ln}
+                          for c in inner]
+        else:
+            o['inner'] = [s for s in (slim(c, ln) for c in inner)
+                          if s is not None]
     return o
 
 
@@ -89,7 +95,7 @@ def load_tu(cfile, repo=None, defines=()):
     [param type strings], 'src': source text, 'path': path}"""
     repo = repo or REPO
     path = os.path.join(repo, 'src/C', cfile)
-    key = _hash(path) + ''.join(defines)
+    key = _hash(path) + ''.join(defines) + 'slim-v2'
     os.makedirs(CACHE, exist_ok=True)
     cp = os.path.join(CACHE, '%s.%s.pkl' % (cfile, hashlib.sha1(
         key.encode()).hexdigest()[:16]))
